@@ -918,4 +918,73 @@ theorem allXs_length (sp : Int) (xr : Int → Int) (c : Nat) (G : List (Int × L
     rw [ih _ (fun x hx => h x (List.mem_cons_of_mem _ hx))]
 
 
+
+theorem xsFrom_closed (x : Int) (st : Nat) (sp : Int) (m : Nat) :
+    xsFrom x st sp m = (List.range m).map (fun i => x + (((i + 1) * st : Nat) : Int) * sp) := by
+  induction m generalizing x with
+  | zero => rfl
+  | succ m ih =>
+    rw [xsFrom, ih, List.range_succ_eq_map]
+    simp only [List.map_cons, List.map_map, List.cons.injEq]
+    constructor
+    · push_cast; ring
+    · apply List.map_congr_left; intro i _; simp only [Function.comp]; push_cast; ring
+
+/-- when the first X of a record is `xr + a·sp`, all its X are `xr + offset·sp` -/
+theorem entryXs_good (sp xr : Int) (a c len : Nat) (prev : Option Int) (h : prev = none ∨ a = 0) :
+    entryXs sp xr a c len prev = (ap a c (len + 1)).map (fun (off : Nat) => xr + (off : Int) * sp) := by
+  have hb : entryBase sp xr a prev = xr + (a : Int) * sp := by
+    unfold entryBase
+    rcases h with rfl | rfl
+    · by_cases ha : a = 0
+      · simp [ha]
+      · simp [ha]
+    · simp
+  unfold entryXs
+  rw [hb, xsFrom_closed]; unfold ap; rw [List.range_succ_eq_map]
+  simp only [List.map_cons, List.map_map, Nat.zero_mul, Nat.add_zero, List.cons.injEq, true_and]
+  apply List.map_congr_left; intro i _; simp only [Function.comp]; push_cast; ring
+
+/-- **Implied X, the good class**: if every record but the first loaded one is entered at offset 0, the implied X of
+every loaded frame is its record's X word plus offset·spacing. -/
+theorem allXs_good (sp : Int) (xr : Int → Int) (c : Nat) :
+    ∀ (G : List (Int × List Nat)) (prev : Option Int), (∀ e ∈ G, ∃ a len, e.2 = ap a c (len + 1)) →
+      ((prev = none ∧ ∀ e ∈ G.tail, e.2.headD 0 = 0) ∨ ∀ e ∈ G, e.2.headD 0 = 0) →
+      allXs sp xr c G prev = (flat G).map (fun (q : Int × Nat) => xr q.1 + (q.2 : Int) * sp) := by
+  intro G
+  induction G with
+  | nil => intro _ _ _; rfl
+  | cons e es ih =>
+    intro prev hap hgood
+    obtain ⟨a, len, hbuf⟩ := hap e (List.mem_cons_self ..)
+    have hhd : e.2.headD 0 = a := by rw [hbuf]; simp [ap, List.range_succ_eq_map]
+    have hl : e.2.length - 1 = len := by rw [hbuf]; simp [ap]
+    have hthis : prev = none ∨ a = 0 := by
+      rcases hgood with ⟨h, _⟩ | h
+      · left; exact h
+      · right; rw [← hhd]; exact h e (List.mem_cons_self ..)
+    have hrest : ∀ e' ∈ es, e'.2.headD 0 = 0 := by
+      rcases hgood with ⟨_, h⟩ | h
+      · simpa using h
+      · exact fun e' he' => h e' (List.mem_cons_of_mem _ he')
+    simp only [allXs, hhd, hl]
+    rw [entryXs_good sp (xr e.1) a c len prev hthis, ih _ (fun x hx => hap x (List.mem_cons_of_mem _ hx)) (Or.inr hrest)]
+    simp only [flat, List.flatMap_cons, List.map_append, List.map_map, hbuf]
+    rfl
+
+
+theorem groupsOf_spec (R : List (Int × Nat)) (hR : IncTells R) (a b c : Nat) (hc : 0 < c) (hb : b ≤ (R.map (·.2)).sum) :
+    Grouped c (groupsOf R a b c) ∧
+    flat (groupsOf R a b c) = (rangeList a b c).map (fun f => (locate R f).getD (0, 0)) := by
+  have hloc : ∀ f, f < b → locate R f = some ((locate R f).getD (0, 0)) := by
+    intro f hf
+    obtain ⟨r, hr⟩ := locate_lt R f (by omega)
+    simp [hr]
+  have := foldMap_grouped c ((rangeList a b c).map (fun f => (locate R f).getD (0, 0))) [] ⟨by simp, by simp⟩
+    (chain_of_frames R hR c hc (fun f => (locate R f).getD (0, 0)) a b (fun f _ h2 => hloc f h2))
+    (by cases (rangeList a b c).map (fun f => (locate R f).getD (0, 0)) with
+        | nil => trivial
+        | cons q _ => exact Or.inl rfl)
+  simpa [flat, groupsOf] using this
+
 end TD.C06
